@@ -471,14 +471,15 @@ def runTrx (s : St) (exec : Bool) (height : Int) (tx : TxIn) (receiver : Account
     | some a1 => pure (r.st.setAcct exec { a1 with nonce := a1.nonce + 1 }, tx.gas, none)
 
 /-- `NewTrxContext` + `ExecuteSync`: the whole handling of one transaction on one path.
-    Returns the new state (for a failed transaction only the receiver find-or-create survives). -/
+    Returns the new state (for a failed transaction only the find-or-create of a 20-byte receiver survives). -/
 def handleTx (s : St) (exec : Bool) (height : Int) (tx : TxIn) : St × TxOut :=
   let failCode : Nat := if exec then 5 else 3
   if !tx.decodable then (s, { code := failCode, kind := "decode" }) else
   match s.findAcct exec tx.from_ with
   | none => (s, { code := failCode, kind := "noacct" })
   | some sender =>
-    let (s0, receiver) := s.findOrNewAcct exec tx.to
+    -- a receiver of a wrong length gets no account record (repair 26f8ae4): validation sees an unsaved object
+    let (s0, receiver) := if byteLen tx.to = 20 then s.findOrNewAcct exec tx.to else (s, ({ addr := tx.to } : Account))
     -- the sender object may be the receiver object that was just created? no: the sender exists already
     match validateTrx s0 exec height tx sender receiver with
     | .error (.err k) => (s0, { code := failCode, kind := k })
